@@ -1,0 +1,23 @@
+//go:build verif
+
+package harfbuzz
+
+// VerifStage describes the shaping buffer at one of the checkpoints of the
+// OpenType shaper. Only built under the "verif" tag.
+type VerifStage struct {
+	Stage   string // "start", "substituted", "positioned", "end"
+	LenInfo int
+	LenPos  int
+	MaxOps  int // operations budget still available
+	MaxLen  int // length budget
+}
+
+// VerifObserver, when non nil, is called at each checkpoint. It is meant to
+// be installed by a single-goroutine monitor process.
+var VerifObserver func(VerifStage)
+
+func verifStage(b *Buffer, stage string) {
+	if VerifObserver != nil {
+		VerifObserver(VerifStage{Stage: stage, LenInfo: len(b.Info), LenPos: len(b.Pos), MaxOps: b.maxOps, MaxLen: b.maxLen})
+	}
+}
